@@ -32,6 +32,11 @@ func builtinJSONParse(call FunctionCall) Value {
 	text := call.Argument(0).string()
 	var raw json.RawMessage
 	if err := json.Unmarshal([]byte(text), &raw); err != nil {
+		if strings.Contains(err.Error(), "exceeded max depth") {
+			// A limit of the decoder, not a fault of the text: nesting
+			// limits are RangeErrors here as elsewhere.
+			panic(call.runtime.panicRangeError("Maximum call stack size exceeded"))
+		}
 		panic(call.runtime.panicSyntaxError(err.Error()))
 	}
 	decoder := json.NewDecoder(strings.NewReader(text))
